@@ -54,6 +54,8 @@ impl Case {
     }
 }
 
+const QUEUED_AFTER_SIGNAL: usize = 4;
+
 async fn quiesce() {
     // with a paused clock a sleep returns only when nothing else is runnable
     for _ in 0..3 {
@@ -154,6 +156,16 @@ struct H2Conn {
 }
 
 pub async fn run_case(case: &Case) -> Vec<(String, String)> {
+    // the completed serving future is kept alive until the case has been judged (a caller may pin the future, await
+    // it by reference and carry on): nothing the property promises may depend on the future being dropped
+    PARK_COMPLETED_SERVER.with(|p| p.set(true));
+    let problems = run_case_inner(case).await;
+    PARK_COMPLETED_SERVER.with(|p| p.set(false));
+    PARKED.with(|l| l.borrow_mut().clear());
+    problems
+}
+
+async fn run_case_inner(case: &Case) -> Vec<(String, String)> {
     let mut problems: Vec<(String, String)> = Vec::new();
     let log = Arc::new(Log::default());
     let gates = Gates::default();
@@ -270,7 +282,7 @@ pub async fn run_case(case: &Case) -> Vec<(String, String)> {
                         read_available(&mut io, &mut got).await;
                         match parse_h1_response(&got) {
                             Some(p) if p.complete => {
-                                let spec = ReqSpec { id, origin: String::new(), method: http::Method::POST, extra_path: "s".into(), query: Some("x=1".into()), h2: false, body_len: 20, chunk: 0, pending_every: 0, headers: vec![], resp_chunk: 0 };
+                                let spec = ReqSpec { id, origin: String::new(), method: http::Method::POST, extra_path: "s".into(), query: Some("x=1".into()), h2: false, body_len: 20, chunk: 0, pending_every: 0, headers: vec![], resp_chunk: 0, unsized_body: false, http10: false };
                                 for (s, m) in check_response(&spec, Some(0), http::StatusCode::from_u16(p.status).unwrap(), &p.headers, &p.body) {
                                     problems.push((format!("before-signal:{s}"), m));
                                 }
@@ -299,6 +311,24 @@ pub async fn run_case(case: &Case) -> Vec<(String, String)> {
     if let Some(tx) = server.shutdown.take() {
         let _ = tx.send(());
     }
+    // connects requested after the signal resolved, queued at the acceptor before the server runs again
+    let mut queued = Vec::new();
+    for i in 0..QUEUED_AFTER_SIGNAL {
+        let d = dclient.clone();
+        // the client sends its request the moment it is connected
+        let mut f: Pin<Box<dyn Future<Output = Result<hyperdriver::stream::duplex::DuplexStream, std::io::Error>> + Send>> = Box::pin(async move {
+            let mut io = d.connect(1024).await?;
+            let (head, body) = h1_request(950 + i as u64, 5, None, false);
+            let _ = io.write_all(&head).await;
+            let _ = io.write_all(&body).await;
+            Ok(io)
+        });
+        let polled = f.as_mut().poll(&mut Context::from_waker(futures_util::task::noop_waker_ref()));
+        queued.push(match polled {
+            Poll::Ready(r) => tokio::spawn(async move { r }),
+            Poll::Pending => tokio::spawn(f),
+        });
+    }
     quiesce().await;
 
     // ---- E1: the serving future resolves Ok
@@ -312,9 +342,9 @@ pub async fn run_case(case: &Case) -> Vec<(String, String)> {
 
     // ---- E2: nothing is accepted or served after the signal
     let after_id = 999u64;
-    match dclient.connect(1024).await {
-        Err(_) => {}
-        Ok(mut io) => {
+    match tokio::time::timeout(Duration::from_secs(600), dclient.connect(1024)).await {
+        Err(_) | Ok(Err(_)) => {}
+        Ok(Ok(mut io)) => {
             let (head, body) = h1_request(after_id, 5, None, false);
             let _ = io.write_all(&head).await;
             let _ = io.write_all(&body).await;
@@ -342,8 +372,39 @@ pub async fn run_case(case: &Case) -> Vec<(String, String)> {
             }
             Ok(Ok(Err(_))) => {}
             Ok(Err(e)) => problems.push(("late-connect-task-panicked".into(), format!("{e}"))),
-            Err(_) => problems.push(("connect-raced-with-signal-never-resolves".into(), "connect() issued in the instant of the signal is still pending at quiescence".into())),
+            // not accepted before the signal was seen; with the completed serving future kept alive the listener
+            // still exists, so the connect stays pending: "accepts no further connections" holds
+            Err(_) => {}
         }
+    }
+
+    let mut served_after = 0;
+    let mut accepted_after = 0;
+    for (i, q) in queued.into_iter().enumerate() {
+        match tokio::time::timeout(Duration::from_secs(600), q).await {
+            Ok(Ok(Ok(mut io))) => {
+                let _ = i;
+                accepted_after += 1;
+                quiesce().await;
+                let mut got = Vec::new();
+                let eof = read_available(&mut io, &mut got).await;
+                if !eof && got.is_empty() {
+                    problems.push(("connection-queued-after-signal-left-hanging".into(), "a connect issued after the signal was accepted but is neither served nor closed at quiescence".into()));
+                }
+                if case.proto != Proto::H2 && parse_h1_response(&got).map(|p| p.complete && p.status < 400).unwrap_or(false) {
+                    served_after += 1;
+                }
+            }
+            Ok(Ok(Err(_))) => {}
+            Ok(Err(e)) => problems.push(("queued-connect-task-panicked".into(), format!("{e}"))),
+            // never accepted (the listener lives as long as the completed serving future is kept): fine
+            Err(_) => {}
+        }
+    }
+    // one connection slipping in between the signal and the server's next look at it is tolerated; a server that
+    // drains its whole accept queue after the signal is not
+    if accepted_after >= 2 {
+        problems.push(("connections-requested-after-signal-were-accepted".into(), format!("{accepted_after} of {QUEUED_AFTER_SIGNAL} connections requested after the shutdown signal had resolved were accepted ({served_after} of them were answered)")));
     }
 
     // ---- let the started exchanges finish
@@ -395,7 +456,7 @@ pub async fn run_case(case: &Case) -> Vec<(String, String)> {
                         Ok(Err(e)) => problems.push(("h2-stream-task-panicked".into(), format!("{e}"))),
                         Ok(Ok(Err(e))) => problems.push((format!("h2-in-flight-stream-failed:{st:?}"), format!("stream {sid} ({st:?}) was being handled at the signal but failed: {e}"))),
                         Ok(Ok(Ok((status, headers, body)))) => {
-                            let spec = ReqSpec { id: sid, origin: String::new(), method: http::Method::POST, extra_path: "h2".into(), query: None, h2: true, body_len: 3000, chunk: 0, pending_every: 0, headers: vec![], resp_chunk: 0 };
+                            let spec = ReqSpec { id: sid, origin: String::new(), method: http::Method::POST, extra_path: "h2".into(), query: None, h2: true, body_len: 3000, chunk: 0, pending_every: 0, headers: vec![], resp_chunk: 0, unsized_body: false, http10: false };
                             for (s, m) in check_response(&spec, Some(0), status, &headers, &body) {
                                 problems.push((format!("h2-in-flight:{s}"), m));
                             }
@@ -418,7 +479,7 @@ pub async fn run_case(case: &Case) -> Vec<(String, String)> {
                 if started {
                     match parsed {
                         Some(p) if p.complete => {
-                            let spec = ReqSpec { id, origin: String::new(), method: http::Method::POST, extra_path: "s".into(), query: Some("x=1".into()), h2: false, body_len: c.body.len(), chunk: 0, pending_every: 0, headers: vec![], resp_chunk: 0 };
+                            let spec = ReqSpec { id, origin: String::new(), method: http::Method::POST, extra_path: "s".into(), query: Some("x=1".into()), h2: false, body_len: c.body.len(), chunk: 0, pending_every: 0, headers: vec![], resp_chunk: 0, unsized_body: false, http10: false };
                             for (s, m) in check_response(&spec, Some(0), http::StatusCode::from_u16(p.status).unwrap_or(http::StatusCode::IM_A_TEAPOT), &p.headers, &p.body) {
                                 problems.push((format!("in-flight:{s}:{pos:?}"), m));
                             }
@@ -429,7 +490,7 @@ pub async fn run_case(case: &Case) -> Vec<(String, String)> {
                 } else if let Some(p) = &parsed {
                     // not started at the signal: being served completely is fine, a mangled response is not
                     if matches!(pos, Pos::HeadPartly | Pos::Sniff(_, false)) && p.complete && p.status < 400 {
-                        let spec = ReqSpec { id, origin: String::new(), method: http::Method::POST, extra_path: "s".into(), query: Some("x=1".into()), h2: false, body_len: c.body.len(), chunk: 0, pending_every: 0, headers: vec![], resp_chunk: 0 };
+                        let spec = ReqSpec { id, origin: String::new(), method: http::Method::POST, extra_path: "s".into(), query: Some("x=1".into()), h2: false, body_len: c.body.len(), chunk: 0, pending_every: 0, headers: vec![], resp_chunk: 0, unsized_body: false, http10: false };
                         for (s, m) in check_response(&spec, Some(0), http::StatusCode::from_u16(p.status).unwrap(), &p.headers, &p.body) {
                             problems.push((format!("late-served:{s}:{pos:?}"), m));
                         }
@@ -450,7 +511,7 @@ pub async fn run_case(case: &Case) -> Vec<(String, String)> {
     }
     // ---- E5: no handler ran for something that arrived after the signal
     for h in log.handled.lock().unwrap().iter().skip(handled_before_signal) {
-        if h.header_id == Some(after_id) || h.header_id == Some(77) || h.header_id.map(|i| (900..999).contains(&i)).unwrap_or(false) {
+        if h.header_id == Some(after_id) || h.header_id == Some(77) || h.header_id.map(|i| (900..950).contains(&i) || (960..999).contains(&i)).unwrap_or(false) {
             problems.push(("request-handled-after-signal".into(), format!("handler invoked for request {:?} which was sent after the shutdown signal", h.header_id)));
         }
     }
